@@ -15,14 +15,14 @@ impl<'a> VxPeekChars<'a> {
             final(self)@ == old(self)@,
             old(self)@.len() == 0 ==> r is None,
             old(self)@.len() > 0 ==> r is Some && *r->Some_0 == old(self)@[0],
-    { self.it.peek() }
+    { unimplemented!() }
 
     #[verifier::external_body]
     pub fn next(&mut self) -> (r: Option<char>)
         ensures
             old(self)@.len() == 0 ==> r is None && final(self)@ == old(self)@,
             old(self)@.len() > 0 ==> r == Some(old(self)@[0]) && final(self)@ == old(self)@.skip(1),
-    { self.it.next() }
+    { unimplemented!() }
 }
 
 #[verifier::external_body]
